@@ -64,9 +64,9 @@ META = {
     "C03": dict(engine="fiberx+pipegen+rt", technique="runtime monitoring: tracked-object registry (canary, live count), ASan/UBSan/LSan, operator new/delete balance at quiescence with deterministic re-run confirmation, over all fiber scenario families; complete k-th-Submit rejection enumeration on generated pipelines under ASan; real-thread ASan pass",
                 text="Held on everything explored: every scenario family (handles dropped at every stage the scenarios reach, throwing callbacks, combinators, Stop/HardStop with queued steps, coroutines on stopped executors) ends with the three lifecycle oracles; rejection points are enumerated completely per generated program.",
                 note="ASan red zones/quarantine limits apply; fiber stack pool and scheduler containers are excluded by the repeat-run rule.", ref="DESIGN.md §3 C03", category="fault_enumeration"),
-    "C04": dict(engine="rt (TSan)", technique="ThreadSanitizer (gcc, __tsan_on_report) on real threads with injected delays at every synchronisation point, plain payloads whose only ordering edge is the library, relaxed-atomic monitors",
-                text="Held on the executions observed: all eight scenario families (future/promise hand-off, executors, strand, pool, combinators, waits, SharedFuture, WaitGroup, coroutine Mutex/SharedMutex, coroutines) under TSan, thousands (quick) to hundreds of thousands (thorough) of cases.",
-                note="No happens-before race on observed x86 executions; not a proof for weak memory models.", ref="DESIGN.md §3 C04"),
+    "C04": dict(engine="rt (TSan) + hbmon (fiber)", technique="ThreadSanitizer (gcc, __tsan_on_report) on real threads with injected delays at every synchronisation point, plain payloads whose only ordering edge is the library, relaxed-atomic monitors; plus a happens-before monitor (vector clocks applying the C++ synchronizes-with rules to the YACLIB_VERIF synchronization trace: every atomic operation with its memory order, fences, mutexes, thread start/join) that checks the annotated payload words on seeded fiber schedules",
+                text="Held on the executions observed: all eight scenario families (future/promise hand-off, executors, strand, pool, combinators, waits, SharedFuture, WaitGroup, coroutine Mutex/SharedMutex, coroutines) under TSan on real threads (thousands to hundreds of thousands of cases) and under the happens-before monitor on fiber schedules (hundreds of thousands to millions of cases; evidence lists synchronization events seen and plain accesses checked).",
+                note="No happens-before race on observed executions (x86 threads; SC fiber schedules judged by the C++ happens-before rules); not a proof for non-SC outcomes of the atomics themselves. The monitor checks annotated payload words only and over-approximates ordering where the standard leaves a choice.", ref="DESIGN.md §2.7, §3 C04"),
 }
 
 ALL = ["C%02d" % i for i in range(1, 21)]
@@ -101,7 +101,9 @@ def main():
             "add_only": True,
         },
         "engines": [
-            {"name": "fiberx", "path": "harness/", "serves_properties": sorted(plans.PLANS), "kind_free_text": "fiber-schedule explorer with runtime monitors (ASan+UBSan)"},
+            {"name": "fiberx", "path": "harness/", "serves_properties": sorted(plans.PLANS), "kind_free_text": "fiber-schedule explorer with runtime monitors (ASan+UBSan), real-thread passes under TSan/ASan"},
+            {"name": "hbmon", "path": "harness/vf_hb.hpp", "serves_properties": ["C01", "C04", "C06", "C07", "C11", "C13", "C14", "C15", "C16"], "kind_free_text": "happens-before monitor (vector clocks over the YACLIB_VERIF synchronization trace) on fiber schedules"},
+            {"name": "pipegen", "path": "pipegen/", "serves_properties": ["C02", "C03", "C05", "C12", "C20"], "kind_free_text": "generated pipeline programs checked against a sequential reference interpreter, complete k-th-Submit rejection enumeration"},
         ],
         "checks": checks,
         "notes": "Runtime monitoring and sanitizers only. See DESIGN.md.",
